@@ -2,8 +2,8 @@
     growth function of the Cayley graph: whenever it returns normally, the result is the list of
     sizes of the true BFS layers (Graph.layer, i.e. the distance classes, GraphProofs.ref_layers_dist)
     from the start permutation, cut at the depth limit or just before the first empty layer.
-    Generators need not be inverse closed.  The only abnormal outcomes on valid input are the
-    IndexError of paint_gray's grouping, characterised below. *)
+    Generators need not be inverse closed.  On valid input the engine never fails
+    (bitmask_bfs_from_total; before fix 40d8e7d the np.roll grouping of paint_gray could). *)
 From Coq Require Import ZArith NArith PArith List Bool Arith Lia Sorting.Permutation
   FMapPositive MSetPositive.
 From V Require Import Base BaseProofs Perm PermProofs PermCycles Bitmask BitmaskProofs
@@ -84,11 +84,11 @@ Proof.
     + intros q' Hq'. rewrite map_paint_if_suffix. apply Hk. right. exact Hq'.
 Qed.
 
-(** the call of paint_gray that raises IndexError: not exactly one state, all in one chunk *)
+(** the call of paint_gray that raises IndexError: the empty array (never made by the engine: no_bad_call) *)
 Definition bad_call (nbrs : list (list nat)) : bool :=
   match nbrs with
-  | [_] => false
-  | _ => all_same_key nbrs
+  | [] => true
+  | _ => false
   end.
 
 Theorem paint_gray_eq cs nbrs :
@@ -98,8 +98,7 @@ Proof.
   intros Hnd Hk. destruct nbrs as [|q [|q' t]].
   - reflexivity.
   - cbn [paint_gray bad_call]. rewrite (route_eq cs q Hnd (Hk q (or_introl eq_refl))). reflexivity.
-  - unfold paint_gray, bad_call. destruct (all_same_key (q :: q' :: t)); [reflexivity|].
-    apply fold_route; assumption.
+  - unfold paint_gray, bad_call. apply fold_route; assumption.
 Qed.
 
 (* the neighbours painted during one step: those of every chunk whose last layer is non-empty *)
@@ -859,70 +858,13 @@ Proof.
 Qed.
 
 (* ------------------------------------------------------------------------------------------- *)
-(** * When the IndexError occurs *)
+(** * The engine never fails on valid input *)
 
 (** [step_inv] / [paint_phase_eq] give the exact condition step by step: the step fails iff some
-    chunk with a non-empty last layer makes a [bad_call].  Two global consequences follow:
-    generators that do not all move the trailing positions in the same way never fail (the
-    documented domain), generators that all do always fail at the first step. *)
-
-Lemma all_same_key_spec l :
-  all_same_key l = true <-> forall a b, In a l -> In b l -> skipn RR a = skipn RR b.
-Proof.
-  destruct l as [|q t]; [split; [intros _ a b [] | reflexivity]|].
-  cbn [all_same_key]. rewrite forallb_forall. split.
-  - intros H a b Ha Hb.
-    assert (Hq : forall x, In x (q :: t) -> skipn RR x = skipn RR q).
-    { intros x [<- | Hx]; [reflexivity|]. apply list_eqb_nat_true. apply H. exact Hx. }
-    rewrite (Hq a Ha), (Hq b Hb). reflexivity.
-  - intros H x Hx. apply list_eqb_nat_true. apply H; [right; exact Hx | left; reflexivity].
-Qed.
-
-Lemma bad_call_same l :
-  bad_call l = true -> forall a b, In a l -> In b l -> skipn RR a = skipn RR b.
-Proof.
-  intros Hb. apply all_same_key_spec. destruct l as [|q [|q' t]]; [reflexivity | discriminate | exact Hb].
-Qed.
-
-Lemma bad_call_intro l :
-  length l <> 1 -> (forall a b, In a l -> In b l -> skipn RR a = skipn RR b) -> bad_call l = true.
-Proof.
-  intros Hl H. apply all_same_key_spec in H. destruct l as [|q [|q' t]]; [reflexivity | | exact H].
-  exfalso. apply Hl. reflexivity.
-Qed.
-
-Lemma skipn_apply_perm k g p : skipn k (apply_perm 0 g p) = apply_perm 0 (skipn k g) p.
-Proof. unfold apply_perm. apply skipn_map. Qed.
-
-Lemma In_skipn {A} k (l : list A) x : In x (skipn k l) -> In x l.
-Proof. intros H. rewrite <- (firstn_skipn k l). apply in_or_app. right. exact H. Qed.
-
-Lemma map_nth_perm_inj p : Perm p -> forall s1 s2,
-  length s1 = length s2 ->
-  (forall x, In x s1 -> x < length p) -> (forall x, In x s2 -> x < length p) ->
-  map (fun i => nth i p 0) s1 = map (fun i => nth i p 0) s2 -> s1 = s2.
-Proof.
-  intros Hp. induction s1 as [|a s1 IH]; intros [|b s2] Hl H1 H2 He; try discriminate; [reflexivity|].
-  cbn [map] in He. injection He as Hab Ht.
-  f_equal.
-  - apply (Perm_inj p a b Hp); [apply H1; left; reflexivity | apply H2; left; reflexivity | exact Hab].
-  - apply IH; [cbn [length] in Hl; lia | | | exact Ht].
-    + intros x Hx. apply H1. right. exact Hx.
-    + intros x Hx. apply H2. right. exact Hx.
-Qed.
-
-(** two generators with different trailing parts send every permutation to two different chunks *)
-Lemma spread_suffix_differ n g1 g2 p :
-  PermN n g1 -> PermN n g2 -> PermN n p -> skipn RR g1 <> skipn RR g2 ->
-  skipn RR (apply_perm 0 g1 p) <> skipn RR (apply_perm 0 g2 p).
-Proof.
-  intros [Hg1 Hl1] [Hg2 Hl2] [Hp Hlp] Hne He. apply Hne.
-  rewrite !skipn_apply_perm in He. unfold apply_perm in He.
-  apply is_perm_iff in Hg1. apply is_perm_iff in Hg2. apply is_perm_iff in Hp.
-  apply (map_nth_perm_inj p Hp); [rewrite !skipn_length; congruence | | | exact He].
-  - intros x Hx. apply In_skipn in Hx. apply (Perm_In g1 x Hg1) in Hx. congruence.
-  - intros x Hx. apply In_skipn in Hx. apply (Perm_In g2 x Hg2) in Hx. congruence.
-Qed.
+    chunk with a non-empty last layer makes a [bad_call], i.e. paints an EMPTY array.  A chunk
+    whose flag is set holds a state of the current layer and there is at least one generator, so
+    its neighbour array is never empty.  (Before fix 40d8e7d the np.roll grouping also failed when
+    all states of a call lay in one chunk: generators that all treat the trailing positions alike.) *)
 
 Lemma cardN_pos_In s : cardN s <> 0%N -> exists r, PS.In r s.
 Proof.
@@ -930,10 +872,6 @@ Proof.
   destruct (PS.elements s) as [|r l] eqn:He; [exfalso; apply Hc; reflexivity|].
   exists r. apply PS_elements_In. rewrite He. left. reflexivity.
 Qed.
-
-Lemma concat_map_singleton {A B} (f : A -> B) (l : list A) :
-  concat (map (fun a => [f a]) l) = map f l.
-Proof. induction l as [|a t IH]; [reflexivity|]. cbn [map concat app]. f_equal. exact IH. Qed.
 
 Section Totality.
   Variable n : nat.
@@ -960,117 +898,81 @@ Section Totality.
     destruct Hr as (p & Hp & Hcp & _). exists p. auto.
   Qed.
 
-  (** ** the documented domain: some two generators differ on the trailing positions *)
-  Definition spread : Prop :=
-    exists g1 g2, In g1 gens /\ In g2 gens /\ skipn RR g1 <> skipn RR g2.
-
-  Lemma spread_no_bad_call t cs :
-    spread -> Inv n gens start t cs ->
+  (** no step of the engine paints an empty array *)
+  Lemma no_bad_call t cs :
+    Inv n gens start t cs ->
     existsb (fun c1 => c_changed c1 && bad_call (neighbors gens c1)) cs = false.
   Proof.
-    intros (g1 & g2 & H1 & H2 & Hne) HI.
+    intros HI.
     destruct (existsb _ cs) eqn:He; [|reflexivity]. exfalso.
     apply existsb_exists in He. destruct He as (c & Hc & Hb).
     apply andb_true_iff in Hb. destruct Hb as [Hch Hbad].
     pose proof (proj2 HI c Hc) as Hci.
     destruct (changed_has_state t c Hci Hch) as (p & Hp & Hcp).
-    pose proof (layer_PermN n gens start Hgens Hstart t p Hp) as HpN.
-    apply (spread_suffix_differ n g1 g2 p (Hgens g1 H1) (Hgens g2 H2) HpN Hne).
-    apply (bad_call_same _ Hbad);
-      apply (neighbors_spec n gens start Hn Hgens Hstart t c _ Hci).
-    - exists g1, p. auto.
-    - exists g2, p. auto.
+    destruct Hvalid as (Hne & _).
+    destruct gens as [|g gs] eqn:Hg; [apply Hne; reflexivity|].
+    assert (Hin : In (apply_perm 0 g p) (neighbors (g :: gs) c)).
+    { apply (neighbors_spec n (g :: gs) start Hn Hgens Hstart t c _ Hci).
+      exists g, p. split; [left; reflexivity|]. auto. }
+    destruct (neighbors (g :: gs) c); [destruct Hin | discriminate Hbad].
   Qed.
 
-  Lemma spread_loop_no_err m : forall t cs sr,
-    spread -> Inv n gens start t cs ->
+  Lemma loop_no_err m : forall t cs sr,
+    Inv n gens start t cs ->
     match loop_nat (bfs_iter gens) m (cs, sr) with
     | inr (Err _) => False
     | _ => True
     end.
   Proof.
-    induction m as [|m IH]; intros t cs sr Hsp HI; [exact I|].
+    induction m as [|m IH]; intros t cs sr HI; [exact I|].
     cbn [loop_nat]. unfold bfs_iter at 1.
     destruct (step_inv n gens start Hn Hgens Hstart t cs HI) as [Hphase HI'].
-    rewrite Hphase, (spread_no_bad_call t cs Hsp HI).
+    rewrite Hphase, (no_bad_call t cs HI).
     destruct (negb (existsb c_changed cs)); [exact I|].
     destruct (count_last _ =? 0)%N; [exact I|].
     apply (IH (S t)); assumption.
   Qed.
 
-  (** in the documented domain the engine always returns normally (and then
-      [bitmask_bfs_from_growth] says what) *)
+  (** on valid input the engine always returns normally (and then [bitmask_bfs_from_growth] says what) *)
   Theorem bitmask_bfs_from_total max_diameter :
-    spread -> exists sizes, bitmask_bfs_from n gens start max_diameter = Ok sizes.
+    exists sizes, bitmask_bfs_from n gens start max_diameter = Ok sizes.
   Proof.
-    intros Hsp. unfold bitmask_bfs_from.
+    unfold bitmask_bfs_from.
     rewrite (proj2 (valid_inputb_spec n gens start) Hvalid).
     unfold bfs_run. destruct (init_inv n gens start Hn Hstart) as [Hpaint HI0].
     rewrite Hpaint. cbn [bind]. cbv zeta. rewrite loop_N_nat.
-    pose proof (spread_loop_no_err (N.to_nat max_diameter) 0 _
-                  [count_last (flush (map (paint_all [start]) (init_chunks n)))] Hsp HI0) as Hl.
+    pose proof (loop_no_err (N.to_nat max_diameter) 0 _
+                  [count_last (flush (map (paint_all [start]) (init_chunks n)))] HI0) as Hl.
     destruct (loop_nat _ _ _) as [[cs' s] | [s | e]]; [eexists; reflexivity | eexists; reflexivity | contradiction].
   Qed.
-
-  (** ** the failure: every generator treats the trailing positions alike, and there are at
-      least two generators -> IndexError at the first step *)
-  Lemma start_chunk_neighbors cs c :
-    Inv n gens start 0 cs -> In c cs -> in_chunk c start ->
-    neighbors gens c = map (fun g => apply_perm 0 g start) gens.
-  Proof.
-    intros HI Hc Hcs. pose proof (proj2 HI c Hc) as Hci.
-    assert (Hm : materialize c = [start]).
-    { assert (Hin : forall p, In p (materialize c) <-> p = start).
-      { intros p. rewrite (materialize_spec n gens start Hn Hgens Hstart 0 c p Hci), L0_eq. split.
-        - intros [[<- | []] _]. reflexivity.
-        - intros ->. split; [left; reflexivity | exact Hcs]. }
-      assert (Hnd : NoDup (materialize c)).
-      { unfold materialize. apply NoDup_map_inj; [apply PS_elements_NoDup|].
-        intros x y Hx Hy He. destruct Hci as (Hwf & Hlast & _).
-        apply PS_elements_In in Hx. apply PS_elements_In in Hy.
-        apply Hlast in Hx. apply Hlast in Hy.
-        destruct Hx as (qx & Hqx & Hcx & ->). destruct Hy as (qy & Hqy & Hcy & ->).
-        rewrite (rk_unrank n Hn c qx Hwf (layer_PermN n gens start Hgens Hstart 0 qx Hqx) Hcx) in He.
-        rewrite (rk_unrank n Hn c qy Hwf (layer_PermN n gens start Hgens Hstart 0 qy Hqy) Hcy) in He.
-        subst qy. reflexivity. }
-      destruct (materialize c) as [|a [|b l]].
-      - exfalso. apply (proj2 (Hin start) eq_refl).
-      - f_equal. apply Hin. left. reflexivity.
-      - exfalso. inversion Hnd as [|x l' Hna _]; subst. apply Hna.
-        rewrite (proj1 (Hin a) (or_introl eq_refl)), (proj1 (Hin b) (or_intror (or_introl eq_refl))).
-        left. reflexivity. }
-    unfold neighbors. cbv zeta. rewrite Hm. cbn [map]. apply concat_map_singleton.
-  Qed.
-
-  Theorem bitmask_bfs_from_index_error max_diameter :
-    length gens <> 1 ->
-    (forall g g', In g gens -> In g' gens -> skipn RR g = skipn RR g') ->
-    (1 <= max_diameter)%N ->
-    bitmask_bfs_from n gens start max_diameter = Err IndexErr.
-  Proof.
-    intros Hlen Hsame Hmd. unfold bitmask_bfs_from.
-    rewrite (proj2 (valid_inputb_spec n gens start) Hvalid).
-    unfold bfs_run. destruct (init_inv n gens start Hn Hstart) as [Hpaint HI0].
-    rewrite Hpaint. cbn [bind]. cbv zeta. rewrite loop_N_nat.
-    set (cs2 := flush (map (paint_all [start]) (init_chunks n))) in *.
-    destruct (N.to_nat max_diameter) as [|m] eqn:Hm; [lia|].
-    cbn [loop_nat]. unfold bfs_iter at 1.
-    destruct (step_inv n gens start Hn Hgens Hstart 0 cs2 HI0) as [Hphase _].
-    rewrite Hphase.
-    assert (Hbad : existsb (fun c1 => c_changed c1 && bad_call (neighbors gens c1)) cs2 = true).
-    { assert (Hs0 : In start (L 0)) by (rewrite L0_eq; left; reflexivity).
-      pose proof (PermN_has_chunk n gens start Hn 0 cs2 start HI0 Hstart) as Hk.
-      apply in_map_iff in Hk. destruct Hk as (c & Hcs & Hc). symmetry in Hcs.
-      apply existsb_exists. exists c. split; [exact Hc|]. apply andb_true_iff. split.
-      - exact (chunk_of_layer_changed n gens start 0 c start (proj2 HI0 c Hc) Hs0 Hcs).
-      - rewrite (start_chunk_neighbors cs2 c HI0 Hc Hcs). apply bad_call_intro.
-        + rewrite map_length. exact Hlen.
-        + intros a b Ha Hb. apply in_map_iff in Ha. apply in_map_iff in Hb.
-          destruct Ha as (g & <- & Hg). destruct Hb as (g' & <- & Hg').
-          rewrite !skipn_apply_perm, (Hsame g g' Hg Hg'). reflexivity. }
-    rewrite Hbad. reflexivity.
-  Qed.
 End Totality.
+
+(** ALL OUTCOMES, final form.  Invalid input: AssertionError.  Valid input: the sizes of the true
+    layers 0..k (k = depth limit or index of the last non-empty layer).  Nothing else. *)
+Theorem bitmask_bfs_from_outcomes_total n gens start (max_diameter : N) (k : nat) :
+  growth_cut gens start (N.to_nat max_diameter) k ->
+  match bitmask_bfs_from n gens start max_diameter with
+  | Ok sizes => valid_input n gens start /\
+                sizes = map (fun i => length (Layer gens start i)) (seq 0 (S k))
+  | Err e => e = AssertionErr /\ ~ valid_input n gens start
+  end.
+Proof.
+  intros Hcut. pose proof (bitmask_bfs_from_outcomes n gens start max_diameter k Hcut) as H.
+  destruct (bitmask_bfs_from n gens start max_diameter) as [sizes | e] eqn:Hr; [exact H|].
+  destruct H as [H | [_ Hv]]; [exact H|].
+  destruct (bitmask_bfs_from_total n gens start Hv max_diameter) as (sizes & Hs). congruence.
+Qed.
+
+(** valid input: the engine returns exactly the growth function (cut at the depth limit) *)
+Theorem bitmask_bfs_from_valid n gens start (max_diameter : N) :
+  valid_input n gens start ->
+  bitmask_bfs_from n gens start max_diameter =
+  Ok (NumpyBfsProofs.take_nonzero
+        (map (fun i => length (Layer gens start i)) (seq 0 (S (N.to_nat max_diameter))))).
+Proof.
+  intros Hv. destruct (bitmask_bfs_from_total n gens start Hv max_diameter) as (sizes & Hs).
+  rewrite Hs. f_equal. exact (bitmask_bfs_from_growth_takewhile n gens start max_diameter sizes Hs).
+Qed.
 
 (* ------------------------------------------------------------------------------------------- *)
 (** * Non-vacuity: concrete instances of the hypotheses and of the theorems *)
@@ -1091,12 +993,6 @@ Proof. apply valid_inputb_spec. vm_compute. reflexivity. Qed.
 
 Example ex_xy9_valid : valid_input 9 ex_xy9 (identity_perm 9).
 Proof. apply valid_inputb_spec. vm_compute. reflexivity. Qed.
-
-Example ex_lrx9_spread : spread ex_lrx9.
-Proof.
-  exists ex_L9, ex_X9. split; [left; reflexivity|]. split; [right; right; left; reflexivity|].
-  vm_compute. discriminate.
-Qed.
 
 (* the hypothesis of the growth theorems: a normal return (the model is run: n = 9, depth 5) *)
 Example ex_lrx9_run5 : bitmask_bfs 9 ex_lrx9 5 = Ok [1; 3; 6; 12; 24; 46].
@@ -1139,25 +1035,14 @@ Proof.
   injection H as <-. exact Hk.
 Qed.
 
-(* the IndexError: hypotheses of bitmask_bfs_from_index_error, its conclusion, and the same
-   outcome obtained independently by running the model *)
-Example ex_xy9_index_error_hyps :
-  length ex_xy9 <> 1 /\ (forall g g', In g ex_xy9 -> In g' ex_xy9 -> skipn RR g = skipn RR g') /\ (1 <= 3)%N.
-Proof.
-  split; [discriminate|]. split; [|lia].
-  intros g g' [<- | [<- | []]] [<- | [<- | []]]; reflexivity.
-Qed.
-
-Example ex_xy9_index_error : bitmask_bfs_from 9 ex_xy9 (identity_perm 9) 3 = Err IndexErr.
-Proof.
-  destruct ex_xy9_index_error_hyps as (H1 & H2 & H3).
-  exact (bitmask_bfs_from_index_error 9 ex_xy9 (identity_perm 9) ex_xy9_valid 3 H1 H2 H3).
-Qed.
-
-Example ex_xy9_index_error_run : bitmask_bfs 9 ex_xy9 3 = Err IndexErr.
+(* generators that all fix the trailing position (one chunk only): the engine now handles them
+   (before fix 40d8e7d: IndexError at the first step) *)
+Example ex_xy9_run : bitmask_bfs 9 ex_xy9 3 = Ok [1; 2; 2; 1].
 Proof. vm_compute. reflexivity. Qed.
 
-(* with a depth limit of 0 nothing is expanded and nothing fails *)
+Example ex_xy9_total : exists sizes, bitmask_bfs_from 9 ex_xy9 (identity_perm 9) 1000 = Ok sizes.
+Proof. exact (bitmask_bfs_from_total 9 ex_xy9 (identity_perm 9) ex_xy9_valid 1000). Qed.
+
 Example ex_xy9_depth0 : bitmask_bfs 9 ex_xy9 0 = Ok [1].
 Proof. vm_compute. reflexivity. Qed.
 
@@ -1184,6 +1069,6 @@ Proof.
   intros q [<- | [<- | []]]; vm_compute; tauto.
 Qed.
 
-Example ex_bad_call : bad_call [ex_X9; ex_Y9] = true /\ bad_call [ex_L9; ex_X9] = false /\
-                      bad_call [ex_X9] = false /\ bad_call [ex_X9; ex_X9] = true.
+Example ex_bad_call : bad_call [] = true /\ bad_call [ex_L9; ex_X9] = false /\
+                      bad_call [ex_X9] = false /\ bad_call [ex_X9; ex_X9] = false.
 Proof. repeat split; reflexivity. Qed.
